@@ -281,6 +281,19 @@ def evaluate(obs):
                 viol.append(V(f'{e["label"]}: a result() call (waiting from the start, or made after the failure / cancellation had been recorded) came back ({e["outcome"]}) '
                               f'while the download was not done: {e["jobs_left"]} job(s) unaccounted, temporary files {e["temps"]}',
                               sym='result-before-done'))
+    # once a result() call has come back the download is OVER: no job of it is begun, allocated for, requested or counted off afterwards
+    # (only events logged on ENTRY to a step count: an exit log may trail)
+    first_ret = {}
+    for e in obs.events:
+        if e['kind'] == 'pp.result_returned' and e['label'] not in first_ret:
+            first_ret[e['label']] = e['n']
+    for lbl, n0 in first_ret.items():
+        late = [e for e in obs.events if e['n'] > n0 and e.get('label') == lbl
+                and e['kind'] in ('pp.expected', 'pp.job_complete.begin', 'fs.allocate', 'api.begin', 'fs.open', 'fs.rename.begin')]
+        stats['results_returned'] = stats.get('results_returned', 0) + 1
+        if late:
+            viol.append(V(f'{lbl}: result() had come back, yet the download went on: {[(e["kind"], e.get("op")) for e in late[:4]]} ({len(late)} step(s) begun afterwards)',
+                          sym='activity-after-result'))
     if getattr(obs, 'live_threads', None):
         viol.append(V(f'submitter/worker threads still alive after exit: {obs.live_threads}', sym='workers-survive'))
     if obs.dirwatch:
